@@ -462,8 +462,12 @@ pub fn run(run: &mut Run) {
     run.enumerate("protocol-table", all_rows.into_iter(), row_oracle);
     run.prop("tag-arity-grid", grid_strategy, run.tier.pick(60_000, 2_000_000), grid_oracle);
     run.prop("structured-rows", row_strategy, run.tier.pick(20_000, 1_000_000), row_oracle);
+    if run.tier == crate::engine::Tier::Thorough {
+        // coverage-guided byte fuzzing of the same oracle (libFuzzer, structure-aware through fuzzde); see fuzzbridge.rs
+        crate::fuzzbridge::campaign(run, "c08", 3_000_000, 400);
+    }
 }
 
 pub fn replays() -> Vec<ReplayEntry> {
-    vec![replay_entry("protocol-table", row_oracle), replay_entry("tag-arity-grid", grid_oracle), replay_entry("structured-rows", row_oracle)]
+    vec![replay_entry("fuzz:c08", crate::fuzzbridge::eval_input), replay_entry("protocol-table", row_oracle), replay_entry("tag-arity-grid", grid_oracle), replay_entry("structured-rows", row_oracle)]
 }
